@@ -4,7 +4,7 @@ import gens
 PLAN_ENTRY = {'stages': [
     {'name': 'raycast',
      'mc': [{'module': 'MC_C06', 'cfg': {'quick': 'MC_C06_quick.cfg', 'thorough': 'MC_C06_thorough.cfg'}, 'workers': 4}],
-     'gens': ['gen_c06_random'],
+     'gens': ['gen_c06_random', 'gen_c06_vertex_lines'],
      'trace': 'Trace_RayCast'}],
     'assumptions': [
         'TLC evaluates the per-edge line/segment solution of RayCast.tla correctly (exact integer cross products)',
@@ -47,4 +47,24 @@ def gen_c06_random(rnd, tier):
         for _r in range(6 if tier == 'quick' else 10):
             o = [rnd.randint(-3, 66), rnd.randint(-3, 66), 0]
             out.append({'m': 'ray', 'op': 'cast', 'pts': pts, 'sc': rnd.choice((0, -3, 2)), 'o': o, 'dirs': rnd.sample(DIRS, 5)})
+    return out
+
+
+def gen_c06_vertex_lines(rnd, tier):
+    """lines through every vertex of closed and open polylines with directions of irrational norm, origins on both sides:
+    the surface-point normal line (normalised direction) must still report every proper crossing at a vertex"""
+    polys = [[[0, 0, 0], [6, 0, 0], [6, 6, 0], [0, 6, 0], [0, 0, 0]],
+             [[2, 0, 0], [4, 0, 0], [6, 3, 0], [4, 6, 0], [2, 6, 0], [0, 3, 0], [2, 0, 0]],
+             [[0, 0, 0], [3, 4, 0], [6, 0, 0], [9, 4, 0], [12, 0, 0]],
+             [[0, 0, 0], [8, 0, 0], [8, 8, 0], [4, 3, 0], [0, 8, 0], [0, 0, 0]]]
+    dirs = [[2, 3, 0], [1, 2, 0], [1, 1, 0], [3, 1, 0], [-2, 3, 0], [1, -2, 0], [5, 2, 0], [-1, 7, 0]]
+    ks = (-3, -1, 2, 5) if tier == 'quick' else (-7, -3, -2, -1, 1, 2, 3, 5, 11)
+    out = []
+    for pts in polys:
+        for v in pts[:-1]:
+            for k in ks:
+                ds = rnd.sample(dirs, 3 if tier == 'quick' else 8)
+                for d in ds:
+                    out.append({'m': 'ray', 'op': 'cast', 'pts': pts, 'sc': rnd.choice((0, -3, 2)),
+                                'o': [v[0] + k * d[0], v[1] + k * d[1], 0], 'dirs': [d]})
     return out
